@@ -4,7 +4,7 @@ set -e
 cd "$(dirname "$0")/.."
 mkdir -p .cache/shim
 echo "[setup] building ll2c against libLLVM-14"
-clang++-14 -O1 -std=c++17 tools/ll2c.cpp $(llvm-config-14 --cxxflags | sed 's/-std=[^ ]*//;s/-fno-exceptions//') $(llvm-config-14 --ldflags --libs) -o .cache/ll2c
+clang++-14 -O1 -std=c++17 tools/ll2c.cpp $(llvm-config-14 --cxxflags | sed 's/-std=[^ ]*//;s/-fno-exceptions//') $(llvm-config-14 --ldflags --libs) -o .cache/ll2c.tmp && mv -f .cache/ll2c.tmp .cache/ll2c  # (atomic replace: a check may be running)
 cat > .cache/shim/cvc5 <<'S'
 #!/bin/sh
 exec /usr/bin/cvc5 --solve-bv-as-int=sum "$@"
